@@ -649,6 +649,16 @@ def ev_call(cx, n, env, pc):
     if isinstance(f, ast.Name) and f.id not in env and (f.id in OPERATORS or f.id in RESULTS):
         if not n.args:
             raise EncodingError("operator call shape")
+        if any(isinstance(a, ast.Starred) for a in n.args):
+            # Op(*(seq,), f): python unpacks the positional record first
+            flat, _ = ev_args(cx, ast.Call(f, n.args, []), env, pc)
+            if not flat or n.keywords or f.id in RESULTS or f.id == "MetaData":
+                raise EncodingError("operator call shape")
+            if flat[0] is Poison:
+                return Poison
+            if isinstance(flat[0], tuple) and f.id in ("len", "Count"):
+                return z3.IntVal(len(flat[0]))
+            return seq_op(cx, f.id, flat[0], flat[1:], pc)
         if n.keywords:
             return seq_op_kw(cx, f.id, ev(cx, n.args[0], env, pc), n.args[1:], n.keywords, env, pc)
         if f.id in RESULTS:
